@@ -335,3 +335,9 @@ package destination
 //@     invariant[regex] regex == (#visited["regex"] ? opts["regex"] : old(dest.Matcher.Regex))
 //@     invariant[notRegex] notRegex == (#visited["notRegex"] ? opts["notRegex"] : old(dest.Matcher.NotRegex))
 //@     invariant[flag] updateMatcher == (#visited["prefix"] || #visited["notPrefix"] || #visited["sub"] || #visited["notSub"] || #visited["regex"] || #visited["notRegex"])
+//@
+//@ // starting and stopping a destination (goroutines, spool, sockets) is not specified here; neither touches a route's configuration
+//@ func (dest *Destination) Run()
+//@   trusted
+//@ func (dest *Destination) Shutdown() error
+//@   trusted
